@@ -233,6 +233,48 @@ func (e *engine) checkPatchLine(worker int, raw []byte) error {
 	return nil
 }
 
+// survivorsKeepOrder: in every object found at the same place before and after, the member names present in both appear in
+// the same relative order, and names that are new come after them; "" when that holds.
+func survivorsKeepOrder(before, after *jsonread.Value, at string) string {
+	if before.T != after.T {
+		return ""
+	}
+	switch before.T {
+	case "arr":
+		if len(before.E) == len(after.E) {
+			for i := range before.E {
+				if d := survivorsKeepOrder(before.E[i], after.E[i], fmt.Sprintf("%s/%d", at, i)); d != "" {
+					return d
+				}
+			}
+		}
+	case "obj":
+		pos := map[string]int{}
+		for i, m := range before.M {
+			pos[string(m.K)] = i
+		}
+		last, seenNew := -1, false
+		for _, m := range after.M {
+			i, old := pos[string(m.K)]
+			if !old {
+				seenNew = true
+				continue
+			}
+			if i < last {
+				return fmt.Sprintf("in the object at %q member %q now comes after a member it used to precede", at, string(m.K))
+			}
+			if seenNew {
+				return fmt.Sprintf("in the object at %q the surviving member %q comes after a newly created one", at, string(m.K))
+			}
+			last = i
+			if d := survivorsKeepOrder(before.M[i].V, m.V, at+"/"+string(m.K)); d != "" {
+				return d
+			}
+		}
+	}
+	return ""
+}
+
 func mustPatch(ops []json.RawMessage) []byte {
 	b, _, _ := renderPatch(jsonread.Canonical, ops)
 	return b
@@ -384,6 +426,16 @@ func (e *engine) checkPatchCase(worker int, c *patchCase, seed, want *jsonread.V
 	}
 	if !outcome(r, ln.Status, want, "", obs) {
 		return
+	}
+	// C05 where the reference leaves the RESULT open (an ensure-add through a null member: outside C14's domain) but the
+	// order clause still applies: whatever the add does, the members that survive it keep their relative order
+	if prop == "C05" && ln.Status == "dc" && ln.Lab == "EnsureThroughNull" && len(c.ops) == 1 && r.aerr == nil {
+		e.rep.Label("SurvivorOrder_dc")
+		if got, perr := jsonread.Parse(r.out); perr != nil {
+			e.rep.Report(viol("malformed-output", "output is not well-formed JSON: "+perr.Error(), obs))
+		} else if d := survivorsKeepOrder(seed, got, ""); d != "" {
+			e.rep.Report(viol("order", "members that survive the operation changed their relative order: "+d, obs))
+		}
 	}
 
 	switch prop {
@@ -557,6 +609,18 @@ func (e *engine) checkCopyLimit(worker int, c *patchCase, r applyResult, ec lib.
 					e.rep.Report(viol("class", what+"the total exceeds the limit but the error is not *AccumulatedCopySizeError", obs2))
 				} else if r2.out != nil {
 					e.rep.Report(viol("output-on-failure", what+"a patch stopped by the limit returned a document", obs2))
+				}
+				// the limit stops the patch AT that copy: a later operation that would fail for another reason is never reached
+				if !via {
+					tailed := joinPatch(append(append([]string{}, c.opTexts...), `{"op":"test","path":"","value":"no document equals this string"}`))
+					r3 := e.runApply(worker, c.docText, tailed, o, false, hang)
+					e.rep.Label("CopyProbe_stops")
+					obs3 := map[string]interface{}{"limit": pb.limit, "patch_with_tail": string(tailed), "err": errString(r3.aerr), "errc": lib.Classify(r3.aerr)}
+					if r3.pan != "" {
+						e.rep.Report(viol("panic", what+"Apply panicked: "+firstLine(r3.pan), obs3))
+					} else if r3.aerr == nil || !lib.Classify(r3.aerr).Copy {
+						e.rep.Report(viol("limit-not-stopping", what+"the copy that crosses the limit did not stop the patch: with a failing test appended the error is not *AccumulatedCopySizeError", obs3))
+					}
 				}
 			}
 		}
